@@ -14,6 +14,7 @@ def FLocal (p : Trace) (e : Ev) (o : List Out) : Prop :=
   match e with
   | .send => ∃ r, o = [.sent r r] ∧ outcomes r (outs p) = 0 ∧ ∀ r' k', Out.sent r' k' ∈ outs p → r' < r
   | .burn => o = []
+  | .sendFail => o = [.sendErr]
   | .msg _ _ _ => o = []
   | .recv k v =>
       (∀ r, Waiting (outs p) r → (∀ r', Waiting (outs p) r' → r ≤ r') → o = [.deliver r k v]) ∧
@@ -73,6 +74,14 @@ theorem finv_step (s : FState) (past : Trace) (e : Ev) (h : FInv s past) :
     refine ⟨?_, ?_, ?_, ?_, ?_, good_snoc hgood ?_⟩
     · simpa [fstep] using hsorted
     · simpa [fstep] using hmem
+    · simpa [fstep] using hsnt
+    · simpa [fstep] using hfresh
+    · simpa [fstep] using honce
+    · simp [FLocal, fstep]
+  | sendFail =>
+    refine ⟨?_, ?_, ?_, ?_, ?_, good_snoc hgood ?_⟩
+    · simpa [fstep] using hsorted
+    · simpa [fstep, Waiting] using hmem
     · simpa [fstep] using hsnt
     · simpa [fstep] using hfresh
     · simpa [fstep] using honce
@@ -265,6 +274,12 @@ theorem hinv_step (s : FState) (t : Tracker) (past : Trace) (e : Ev) (h : HInv s
         · exact Or.inl ⟨h1, by omega, h3⟩
     · intro r k v hd; simp [fstep] at hd
   | burn =>
+    refine ⟨by simpa [fstep, tstep] using hn, ?_, hmn, hab, by simpa [fstep] using hsorted, ?_, hquiet,
+      good_snoc hgood ?_⟩
+    · simp [tstep, numRecv_snoc, hm]
+    · simpa [fstep, tstep] using hmem
+    · intro r k v hd; simp [fstep] at hd
+  | sendFail =>
     refine ⟨by simpa [fstep, tstep] using hn, ?_, hmn, hab, by simpa [fstep] using hsorted, ?_, hquiet,
       good_snoc hgood ?_⟩
     · simp [tstep, numRecv_snoc, hm]
